@@ -1319,6 +1319,10 @@ func (r *Replica) applyWALSegmentsV3(ctx context.Context, client ReplicaClientV3
 				return err
 			}
 			expectedIndex++
+		} else if seg.Index != expectedIndex-1 {
+			// A continuation segment must belong to the WAL file being rebuilt;
+			// otherwise the first segment of its index is missing.
+			return fmt.Errorf("missing WAL index: expected %d/0, got %d/%d", expectedIndex, seg.Index, seg.Offset)
 		} else if seg.Offset != offset {
 			return fmt.Errorf("missing WAL segment: expected %d/%d, got %d/%d", seg.Index, offset, seg.Index, seg.Offset)
 		}
